@@ -19,7 +19,7 @@ MonStep(m, e, l) ==
     ELSE LET L1 == ApplyStimulus(m, e, l)
              \* releases reported on lines that are not fragments (there should be none)
              L2 == IF e.k # "rx" THEN CheckCounts(ApplyRelease(L1, e, l), e, l) ELSE L1
-         IN FoldLeft(LAMBDA acc, x : ApplyTx(acc, x, l), L2, e.tx)
+         IN FoldLeft(LAMBDA acc, x : ApplyTx(acc, x, e, l), L2, e.tx)
 
 Claimed == {"C03"}
 =============================================================================
